@@ -421,7 +421,11 @@ func faultTrees() []faultTree {
 	return out
 }
 
-var garbage = []string{"@if(true)x", "{{ \"abc", "{{-- x", "@each(v in", "{{ 1 +", "{{ # }}", "@component(\"x\"", "{{ {a: 1", "@for(;", "@insert(\"a\""}
+var garbage = []string{"@if(true)x", "{{ \"abc", "{{-- x", "@each(v in", "{{ 1 +", "{{ # }}", "@component(\"x\"", "{{ {a: 1", "@for(;", "@insert(\"a\"",
+	// complete statements that are wrong in themselves (no prefix of a valid file looks like them)
+	"@component(\"item\", 5)", "@component(\"x\", \"y\")", "@component(\"x\", name)", "@component(\"x\", [1, 2])", "@component(\"x\", {a: 1}, 2)", "@if(a b)x@end", "@each(x y)a@end", "@each(x in)a@end",
+	"@for(i = 0; i < 3; i++; j = 1)y@end", "{{ x = }}", "{{ a ? b }}", "@if(a)x@else y@else z@end", "@if(a)x@else y@elseif(b)z@end", "@insert()", "@use()", "@reserve()", "{{ [1 2] }}", "{{ {a 1} }}", "{{ x. }}",
+	"{{ 99999999999999999999 }}", "@slot(\"a\", \"b\")", "@breakIf()", "{{ 1 + }} rest of the page", "fine so far\n\n@each(v in [1, 2])\n{{ v }}\n@end\n{{ ) }}"}
 
 // runFaults applies every fault to one file of a valid tree
 func runFaults(c *core.Ctx, ft faultTree, file string) {
